@@ -12,6 +12,7 @@ import (
 	"strconv"
 	"strings"
 	"sync"
+	"sync/atomic"
 	"testing"
 	"time"
 
@@ -34,6 +35,9 @@ type cop struct {
 	Name string `json:"name,omitempty"`
 	Key  int    `json:"key"`
 	Spin int    `json:"spin"` // scheduler yields before the request is issued
+	// reload only: the operator (the same goroutine) first replaces the store file with this set
+	// (atomically), then asks for the reload
+	Edit map[string]int `json:"edit,omitempty"`
 }
 
 func (o cop) show(kl int) string {
@@ -43,6 +47,9 @@ func (o cop) show(kl int) string {
 	case "delete":
 		return fmt.Sprintf("delete(%s)", o.Name)
 	}
+	if o.Edit != nil {
+		return fmt.Sprintf("edit-file(%v)+reload", o.Edit)
+	}
 	return "reload"
 }
 
@@ -51,9 +58,9 @@ type cplan struct {
 	Mode    credx.Mode     `json:"mode"`
 	Initial map[string]int `json:"initial"`
 	Ops     []cop          `json:"ops"`
-	File    map[string]int `json:"file,omitempty"` // what the operator put in the file before the reload op(s)
-	Gate    string         `json:"gate,omitempty"` // "", "tcp", "udp": hold that live store's lock while the lead op runs
-	Lead    int            `json:"lead"`           // index of the op that runs first under the gate
+	File    map[string]int `json:"file,omitempty"`  // what the operator put in the file before the reload op(s)
+	Gate    string         `json:"gate,omitempty"`  // "", "tcp", "udp": hold that live store's lock while the lead op runs
+	Lead    int            `json:"lead"`            // index of the op that runs first under the gate
 	Tight   bool           `json:"tight,omitempty"` // the next op is issued by the goroutine that releases the gate
 	Reps    int            `json:"reps"`
 }
@@ -70,6 +77,9 @@ func (p cplan) keys() []int {
 	for _, o := range p.Ops {
 		if o.Op == "add" || o.Op == "update" {
 			seen[o.Key] = true
+		}
+		for _, k := range o.Edit {
+			seen[k] = true
 		}
 	}
 	out := make([]int, 0, len(seen))
@@ -127,9 +137,13 @@ func drawCPlan(rt *rapid.T, allowReload, allowSharedKeys bool) cplan {
 	}
 	// one plan in eight: two reloads in flight together (signal + API request), plus what was drawn
 	if allowReload && rapid.IntRange(0, 7).Draw(rt, "tworeloads") == 0 {
-		p.Ops[0] = cop{Op: "reload", Spin: p.Ops[0].Spin}
-		p.Ops[1] = cop{Op: "reload", Spin: p.Ops[1].Spin}
-		hasReload = true
+		for i := 0; i < 2; i++ {
+			e := drawUsers(rt, fmt.Sprintf("edit%d", i), true)
+			if !allowSharedKeys {
+				e = privateKeys(e, i)
+			}
+			p.Ops[i] = cop{Op: "reload", Spin: p.Ops[i].Spin, Edit: e}
+		}
 	}
 	if hasReload {
 		p.File = drawUsers(rt, "file", true)
@@ -173,11 +187,11 @@ type crig struct {
 	rig    *credx.Rig
 	dir    string
 	path   string
-	writes int
+	writes atomic.Int64
 }
 
 func newCRig(kl int, mode credx.Mode) (*crig, error) {
-	dir, err := os.MkdirTemp(workDir(), "c08c-")
+	dir, err := os.MkdirTemp(workDir(), "verif-c08-c-")
 	if err != nil {
 		return nil, err
 	}
@@ -197,13 +211,17 @@ func (c *crig) close() { os.RemoveAll(c.dir) }
 // put writes a store document whose bytes differ from everything written before (trailing
 // white space), so that a reload can never be skipped as "file unchanged".
 func (c *crig) put(users map[string][]byte) error {
-	c.writes++
+	w := c.writes.Add(1)
 	doc := credx.EncodeStore(users, true)
-	for w := c.writes; w > 0; w >>= 1 {
-		doc = append(doc, " \t"[w&1])
+	for v := w; v > 0; v >>= 1 {
+		doc = append(doc, " \t"[v&1])
 	}
 	doc = append(doc, '\n')
-	return credx.WriteStore(c.path, doc)
+	tmp := fmt.Sprintf("%s.edit%d", c.path, w)
+	if err := os.WriteFile(tmp, doc, 0o644); err != nil {
+		return err
+	}
+	return os.Rename(tmp, c.path)
 }
 
 func usersOf(kl int, m map[string]int) map[string][]byte {
@@ -368,6 +386,12 @@ func runTrial(c *crig, p cplan) ctrial {
 		case "delete":
 			code, body = r.Delete(o.Name)
 		case "reload":
+			if o.Edit != nil {
+				if err := c.put(usersOf(kl, o.Edit)); err != nil {
+					acks[i] = ack{599, "HARNESS " + err.Error()}
+					return
+				}
+			}
 			code, body = r.Reload()
 		}
 		acks[i] = ack{code, string(body)}
@@ -383,6 +407,12 @@ func runTrial(c *crig, p cplan) ctrial {
 		case "delete":
 			err = r.MS.DeleteCredential(o.Name)
 		case "reload":
+			if o.Edit != nil {
+				if err := c.put(usersOf(kl, o.Edit)); err != nil {
+					acks[i] = ack{599, "HARNESS " + err.Error()}
+					return
+				}
+			}
 			err = r.MS.LoadFromFile()
 		}
 		if err != nil {
@@ -423,28 +453,36 @@ func runTrial(c *crig, p cplan) ctrial {
 		leadDone := make(chan struct{})
 		wg.Go(func() { issue(p.Lead); close(leadDone) })
 		// give the lead request time to finish its part under the manager lock and queue on the
-		// store lock (or to be refused): watch the manager's cache through the exported getter
+		// store lock (or to be refused). The manager's cache is watched through its exported getter
+		// from a helper goroutine, because an implementation that keeps the manager lock while it
+		// waits for the store lock would block the getter until the gate opens.
 		_, leadState := modelApply(init, p.Ops[p.Lead], kl, file)
-		t0 := time.Now()
-	wait:
-		for time.Since(t0) < 2*time.Millisecond {
-			select {
-			case <-leadDone:
-				break wait
-			default:
-			}
-			cur := map[string][]byte{}
-			for _, uc := range r.MS.Credentials() {
-				cur[uc.Name] = uc.UPSK
-			}
-			if credx.SameUsers(cur, leadState) {
-				for j := 0; j < 10; j++ {
-					runtime.Gosched()
+		applied := make(chan struct{})
+		var giveUp atomic.Bool
+		wg.Go(func() {
+			defer close(applied)
+			for !giveUp.Load() {
+				cur := map[string][]byte{}
+				for _, uc := range r.MS.Credentials() {
+					cur[uc.Name] = uc.UPSK
 				}
-				break wait
+				if credx.SameUsers(cur, leadState) {
+					return
+				}
+				runtime.Gosched()
 			}
-			runtime.Gosched()
+		})
+		timer := time.NewTimer(2 * time.Millisecond)
+		select {
+		case <-leadDone:
+		case <-applied:
+			for j := 0; j < 10; j++ {
+				runtime.Gosched()
+			}
+		case <-timer.C:
 		}
+		timer.Stop()
+		giveUp.Store(true)
 		close(gate)
 		for i := range p.Ops {
 			if i != p.Lead && i != follower {
@@ -460,19 +498,52 @@ func runTrial(c *crig, p cplan) ctrial {
 		tr.violation, tr.sig = err.Error(), "api-list-broken"
 		return tr
 	}
-	// some serialisation must explain acknowledgements and the listed set
-	for _, perm := range permutations(n) {
-		st := init
-		ok := true
-		for _, i := range perm {
-			var done bool
-			done, st = modelApply(st, p.Ops[i], kl, file)
-			if done != accepted(acks[i].code) {
-				ok = false
-				break
-			}
+	// Some serialisation must explain acknowledgements and the listed set. A reload takes
+	// whatever complete document was at the path when it read it: the one present before the
+	// requests, or any document an edit+reload request put there.
+	fileCands := []map[string][]byte{init}
+	if p.File != nil {
+		fileCands[0] = file
+	}
+	for _, o := range p.Ops {
+		if o.Op == "reload" && o.Edit != nil {
+			fileCands = append(fileCands, usersOf(kl, o.Edit))
 		}
-		if ok && credx.SameUsers(st, listed) {
+	}
+	nReloads := 0
+	for _, o := range p.Ops {
+		if o.Op == "reload" {
+			nReloads++
+		}
+	}
+	var search func(perm []int, pos int, st map[string][]byte) bool
+	search = func(perm []int, pos int, st map[string][]byte) bool {
+		if pos == len(perm) {
+			return credx.SameUsers(st, listed)
+		}
+		i := perm[pos]
+		if p.Ops[i].Op == "reload" {
+			if !accepted(acks[i].code) {
+				return false
+			}
+			for _, f := range fileCands {
+				if search(perm, pos+1, f) {
+					return true
+				}
+			}
+			if nReloads >= 2 {
+				return search(perm, pos+1, st) // file unchanged since another reload read it: no-op
+			}
+			return false
+		}
+		done, st2 := modelApply(st, p.Ops[i], kl, nil)
+		if done != accepted(acks[i].code) {
+			return false
+		}
+		return search(perm, pos+1, st2)
+	}
+	for _, perm := range permutations(n) {
+		if search(perm, 0, init) {
 			tr.order = perm
 			break
 		}
@@ -518,8 +589,8 @@ var recConc = ev.New("C08", "concurrent-plans",
 	Require("two-acked-same-user", "gated", "ungated")
 
 func concurrencyAllowances() (allowReload, allowShared bool) {
-	allowReload = !ev.IsKnown("C08", sigRaceLoad)
-	allowShared = !ev.IsKnown("C08", "duplicate-upsk-accepted")
+	allowReload = !isKnown(sigRaceLoad)
+	allowShared = !isKnown("duplicate-upsk-accepted")
 	return
 }
 
@@ -567,8 +638,8 @@ func runCPlan(rigs map[string]*crig, p cplan, rec *ev.Recorder) string {
 			if tr.sig == "" {
 				return tr.violation
 			}
-			if ev.IsKnown("C08", tr.sig) {
-				rec.KnownHit(tr.sig)
+			if isKnown(tr.sig) {
+				rec.KnownHit(listedSig(tr.sig))
 				rec.Case("known", false, "known-hit")
 				continue
 			}
@@ -672,8 +743,8 @@ func runSavedTrial(p cplan) (violation string, nontrivial bool, pattern string) 
 	p.File = nil
 	tr := runTrial(c, p)
 	if tr.violation != "" {
-		if tr.sig != "" && ev.IsKnown("C08", tr.sig) {
-			recConcFile.KnownHit(tr.sig)
+		if tr.sig != "" && isKnown(tr.sig) {
+			recConcFile.KnownHit(listedSig(tr.sig))
 			return "", false, "known"
 		}
 		if tr.sig == "" {
